@@ -142,7 +142,10 @@ def run(ctx):
                       "under we (with the lane bit iff granular); NO_CHANGE read under !we; re wraps the read", min_sites=13)
     ctx.rule("C01.i", "literal format: <sign><nbits>'d<abs(value)>, sign iff value < 0", min_sites=4)
     ctx.rule("C01.j", "inclusive bounds: every printed range upper bound is (length or stop) - 1", min_sites=10)
-    ctx.rule("C01.k", "Cat prints its operands reversed exactly once (Migen LSB-first, Verilog MSB-first)", min_sites=1)
+    ctx.rule("C01.k", "Cat prints its operands reversed exactly once (Migen LSB-first, Verilog MSB-first); Cat and Replicate always "
+                      "print a brace-delimited concatenation and report it unsigned: inside {} an operand is self-determined and "
+                      "unsigned, a bare operand would leak its sign and its context-determined width into the enclosing expression",
+             min_sites=5)
     ctx.rule("C01.n", "memory initial contents: the $readmemh data file lists memory.init word by word, unmodified (at most masked to "
                       "the memory width), in hex, and is loaded into the declared memory", min_sites=5)
     ctx.rule("C01.m", "slice lowering: a slice of a Cat/Replicate/nested slice is re-targeted to the one element that holds all its "
@@ -654,6 +657,33 @@ def run(ctx):
                  (isinstance(n, ast.Subscript) and norm(n.slice) == "::-1"))
     ctx.ob("C01.k", EXP, "_generate_cat", "operands reversed exactly once", nrev == 1 and src_ok,
            "" if nrev == 1 else f"Cat operands are reversed {nrev} times: Migen's Cat is LSB-first, Verilog's {{}} MSB-first", gcat)
+
+    for fname in ("_generate_cat", "_generate_replicate"):
+        f = em.func(fname)
+        rets = [p for p in P.feasible_paths(f) if p.end == "return"]
+        ctx.ob("C01.k", EXP, fname, "return:present", bool(rets), "no return", f)
+        for p in rets:
+            v = p.end_node.value
+            txt, sgn = (v.elts[0], v.elts[1]) if isinstance(v, ast.Tuple) and len(v.elts) == 2 else (None, None)
+            parts = []
+
+            def flat(e):
+                if isinstance(e, ast.BinOp) and isinstance(e.op, ast.Add):
+                    flat(e.left)
+                    flat(e.right)
+                elif isinstance(e, ast.JoinedStr):
+                    parts.extend(e.values)
+                else:
+                    parts.append(e)
+            if txt is not None:
+                flat(txt)
+            ok = bool(parts) and isinstance(parts[0], ast.Constant) and str(parts[0].value).startswith("{") and \
+                isinstance(parts[-1], ast.Constant) and str(parts[-1].value).endswith("}")
+            ctx.ob("C01.k", EXP, fname, f"returned text is brace-delimited (L{p.end_node.lineno})", ok,
+                   "" if ok else f"`return {norm(v)[:70]}` prints the operand bare: its signedness and context-determined width leak into the "
+                                 f"enclosing expression (Migen masks a Cat/Replicate to its own width and treats it as unsigned)", p.end_node)
+            ok = sgn is not None and norm(sgn) == "False"
+            ctx.ob("C01.k", EXP, fname, f"reported unsigned (L{p.end_node.lineno})", ok, "" if ok else f"signedness {norm(sgn) if sgn is not None else '?'}", p.end_node)
 
     # ================================================================ C01.l
     fors = [n for n in ast.walk(sy) if isinstance(n, ast.For)]
